@@ -58,7 +58,7 @@ def _squash_types(stmts, rng):
             st[1] = 12 + (st[1] % 2)
         elif st[0] == "actlog":
             st[2] = 12 + (st[2] % 2)
-        elif st[0] == "try":
+        elif st[0] in ("try", "handler"):
             _squash_types(st[1], rng)
         elif st[0] == "handoff":
             _squash_types(st[5], rng)
